@@ -8,8 +8,9 @@ from pv import findings
 from pv import tlc
 
 ROOT = os.path.dirname(os.path.dirname(os.path.abspath(__file__)))
-EVID = os.path.join(ROOT, 'evidence')
-REPLAYS = os.path.join(ROOT, 'replays')
+# experiments (tools/run_patchset.py) write elsewhere; registered commands never set these
+EVID = os.environ.get('PV_EVIDENCE_DIR') or os.path.join(ROOT, 'evidence')
+REPLAYS = os.environ.get('PV_REPLAY_DIR') or os.path.join(ROOT, 'replays')
 
 
 class Machinery(Exception):
